@@ -112,6 +112,8 @@ TOOLS_N = {
     "cycle": (1, lambda S, p: a.islice(a.cycle(S[0]), 9), lambda S, p: itertools.islice(itertools.cycle(S[0]), 9)),
     "merge": (2, lambda S, p: a.merge(*S, key=num, reverse=p["flag"] is True),
               lambda S, p: heapq.merge(*S, key=num, reverse=p["flag"] is True)),
+    "merge-plain": (2, lambda S, p: a.merge(*S, reverse=p["flag"] is True),
+                    lambda S, p: heapq.merge(*S, reverse=p["flag"] is True)),
     "starmap": (1, lambda S, p: a.starmap(lambda *xs: len(xs), a.map(lambda x: (x, x), S[0])),
                 lambda S, p: itertools.starmap(lambda *xs: len(xs), builtins.map(lambda x: (x, x), S[0]))),
     "tee": (1, lambda S, p: a.chain(*a.tee(S[0], 2)), lambda S, p: itertools.chain(*itertools.tee(S[0], 2))),
@@ -203,3 +205,59 @@ async def _guard(consume):
         return await consume()
     except Exception as exc:
         return ("raise", type(exc).__name__)
+
+
+@st.composite
+def interleaved_cases(draw, tools):
+    """two native cases whose library iterators are alive at the same time and advanced alternately"""
+    first = draw(native_cases(tools))
+    # half of the pairs are two instances of the SAME tool family (zip / zip3, merge / merge-plain ...)
+    family = [t for t in tools if t.split("-")[0].rstrip("23") == first["tool"].split("-")[0].rstrip("23")]
+    second = draw(native_cases(family if draw(st.booleans()) else tools))
+    return {"a": first, "b": second, "schedule": draw(st.lists(st.integers(0, 1), max_size=30))}
+
+
+def _reference(case):
+    _, _lib, ref = TOOLS_N[case["tool"]]
+    items = []
+    try:
+        for x in ref([make(k, d) for k, d in zip(case["kinds"], case["data"])], case["p"]):
+            items.append(_norm(x))
+    except Exception as exc:
+        return ("items", items, type(exc).__name__)
+    return ("items", items, "stop")
+
+
+def run_interleaved(case):
+    """-> [(library outcome, stdlib outcome) for a, for b]: two instances of (possibly the same) tool must not
+    influence each other - nothing about an instance is kept per class, per module or per process"""
+    subs = [case["a"], case["b"]]
+
+    async def consume():
+        its, outs, ends = [], [[], []], [None, None]
+        for sub in subs:
+            try:
+                its.append(TOOLS_N[sub["tool"]][1]([make(k, d) for k, d in zip(sub["kinds"], sub["data"])], sub["p"]))
+            except Exception as exc:
+                its.append(None)
+                ends[len(its) - 1] = type(exc).__name__
+        order = list(case["schedule"]) + [0, 1] * 40
+        for pick in order:
+            if all(e is not None for e in ends):
+                break
+            if ends[pick] is not None:
+                continue
+            try:
+                outs[pick].append(_norm(await its[pick].__anext__()))
+            except StopAsyncIteration:
+                ends[pick] = "stop"
+            except Exception as exc:
+                ends[pick] = type(exc).__name__
+        for it in its:
+            if it is not None and hasattr(it, "aclose"):
+                await it.aclose()
+        return [("items", outs[k], ends[k]) for k in (0, 1)]
+
+    outcome = run(Ctx("a"), consume())
+    got = outcome[1] if outcome[0] == "return" else [("crashed", repr(outcome[1]))] * 2
+    return [(got[k], _reference(subs[k])) for k in (0, 1)]
